@@ -23,6 +23,7 @@ type c04Case struct {
 	before   string // full dump taken right before the last Close
 	nt       bool   // non-trivial: >= 8 persists and a drop/rename since open before a close
 	excluded bool   // cut short by a known finding
+	gapHits  int    // closes whose final state ended 1..7 bytes before a chunk end
 }
 
 func newC04Case(rec *ev.Rec, jr *journal, opener dbgen.Opener, storage string) (*c04Case, error) {
@@ -66,6 +67,18 @@ func (c *c04Case) step(st *dbgen.Step) string {
 		return ""
 	}
 	c.rec.Label(stepLabel(st, res))
+	if st.Kind == dbgen.KReopen && res.Err == "" {
+		c.rec.LabelIf(res.Padded, "close_padded")
+		switch g := res.CloseGap; {
+		case g == 0:
+			c.rec.Label("close_state_ends_0_before_chunk_end")
+		case g >= 1 && g <= 7:
+			c.rec.Label("close_state_ends_1..7_before_chunk_end")
+			c.gapHits++
+		case g >= 8 && g <= 16:
+			c.rec.Label("close_state_ends_8..16_before_chunk_end")
+		}
+	}
 	n := len(c.jr.steps) - 1
 	if res.Err != "" {
 		return c.failure("step %d: %s", n, res.Err)
@@ -169,6 +182,7 @@ func TestC04(t *testing.T) {
 		defer func() { c.s.Close() }()
 		o := dbgen.DefaultOpts()
 		o.Persist = draw(t, "persistweight", []int{20, 35, 50})
+		o.PadClose = 25
 		n := 20 + gen.Uniform(t, "nsteps", 81)
 		for i := 0; i < n && !c.excluded; i++ {
 			if msg := c.step(dbgen.GenStep(t, s.W, o)); msg != "" {
@@ -177,6 +191,9 @@ func TestC04(t *testing.T) {
 		}
 		// one more cycle, then the full check of the reopened database
 		final := &dbgen.Step{Kind: dbgen.KReopen}
+		if storage == "heap" && gen.Chance(t, "finalpad", 25) {
+			final.Pad = 1 + gen.Uniform(t, "finalpadd", 17)
+		}
 		if len(s.W.Tables) > 0 && !c.excluded && rapid.Bool().Draw(t, "finalopen") {
 			final.Acts = dbgen.GenActions(t, s.W, o, 2)
 			for i := range final.Acts {
@@ -202,6 +219,7 @@ func TestC04(t *testing.T) {
 		rec.LabelIf(s.W.HasDroppedCol(), "final_state_has_dropped_column")
 		rec.LabelIf(s.W.NRows() >= 10, "final_state_rows>=10")
 		rec.LabelIf(c.excluded, "history_cut_by_known_finding")
+		rec.LabelIf(c.gapHits > 0, "history_close_state_ends_1..7_before_chunk_end")
 		rec.Label("storage_" + storage)
 		if c.nt && !c.excluded && rec.WantSample("nontrivial_history") {
 			rec.Sample("nontrivial_history", map[string]any{"steps": jr.lines(), "final_dump": dbgen.Dump(s.DB)})
